@@ -1103,6 +1103,7 @@ def check_C04(ctx):
                  CONT_DEPS | {"ContainerFlush.v", "ContainerOut.v", "Term.v", "Vt.v", "VtProofs.v", "GenChecks.v", "gen/GenApi.v", "Props/C04.v"})
     if ctx.harness:
         pty_check(ctx)
+        opt_check(ctx, {"spinner"})   # each frame fits in columns: spinner fillers with frames of unequal width
 
 
 def pty_check(ctx):
